@@ -106,6 +106,51 @@ CLAIMED = {
              "The equalities between counts and returned rows are a bounded stand-in: statistics vs rows on the real Balancer over batch sizes and thresholds incl. observed confidences and 1.0.",
         note="bounded for the count = rows equalities", technique="contract-based deductive verification of counter bounds and merge_stats + bounded stats-vs-rows comparison",
         design="5/C18"),
+    "C09": dict(
+        category="other",
+        text="Bounded stand-in: every acyclic single bond of hand-picked (incl. isotope-labelled, charged, hetero-atom) and corpus molecules is cut; the open fragments are produced by the "
+             "production path (find_missing_parts_pairs with the complementary fragment as common substructure, build_compounds) and given to the real merge. Two-fragment merges must give back "
+             "the molecule unless a restriction rule is reported; single-fragment completions must equal fragment + the compound of the reported expansion rule, bonded, valid, without open attachment point.",
+        note="bounded; ambiguous cuts (the kept fragment matches elsewhere) are skipped; RDKit trusted", technique="bounded stand-in on the real merge through the production fragment path",
+        design="5/C09"),
+    "C14": dict(
+        category="other",
+        text="Bounded stand-in for the relational claim: reactions (repeated molecules included) and random rewritings of them (atom order, kekulised / aromatic, atom maps, molecule order) through the real Balancer "
+             "must get the same verdict and the same added molecules (modulo the redox reagent template). The composition contracts of C07 (verdict = function of the two compositions) are the deductive support.",
+        note="bounded; one open known finding (marker-like molecules)", technique="bounded stand-in (real pipeline on equivalent spellings) supported by the C07 composition contracts",
+        design="5/C14"),
+    "C15": dict(
+        category="other",
+        text="Bounded stand-in: the real remove_atom_mapping against RDKit's map clearing on enumerated bracket atoms [iso sym chir H charge map] over 118 + 8 aromatic symbols in 13 bond contexts, "
+             "re-emitted corpus molecules (maps, explicit bonds, kekulised, explicit H, random order), mapped reactions and inputs with up to 1500 mapped atoms.",
+        note="bounded (regex replace-all chains are undecided in both string solvers); one open known finding (hypervalent explicit-H atoms)", technique="bounded stand-in against an RDKit oracle",
+        design="5/C15"),
+    "C16": dict(
+        category="other",
+        text="Bounded stand-in: is_functional_group under atom renumbering (all permutations for <= 4 atoms, random beyond) for every non-carbon atom and all 25 groups; pattern_match at every atom against "
+             "RDKit's substructure search for all pattern / anti-pattern structures, on a hand-picked group / ring family and corpus molecules.",
+        note="bounded; one open known finding (ring closure never checked / wrap-around in small rings)", technique="bounded stand-in against RDKit substructure search and renumbering",
+        design="5/C16"),
+    "C17": dict(
+        category="other",
+        text="Bounded stand-in: normalisation is idempotent and invariant under permutation and re-spelling, similarity 1 for such variants, symmetric and within [0,1] for random pairs and all three methods, "
+             "on corpus reactions and reactions built from isomer families whose canonical SMILES are anagrams.",
+        note="bounded; RDKit canonicalisation trusted", technique="bounded stand-in on the real normalize_smiles / wc_similarity",
+        design="5/C17"),
+    "C19": dict(
+        category="proof",
+        text="Deductive: the database invariant (every recorded composition with explicit Q is the composition of its SMILES; formulas pairwise distinct; SMILES pairwise distinct) is proved inductive over "
+             "add_entry (appends exactly the new entry or raises ValueError leaving the database unchanged, exactly for duplicates / invalid SMILES), add_entries (every entry added or reported) and remove_entry "
+             "(deletes exactly the named entry) for all databases and arguments, so it holds after every operation sequence. Finite data obligation: the shipped databases against that invariant (3 open data findings). "
+             "Bounded: all operation sequences of length 2 (3 in the thorough tier) and random longer ones on the real manager.",
+        note="trusted: pyvc, z3/cvc5, assumed contracts of decompose (fresh dictionary holding DEC(smiles)) and is_valid_smiles", technique="contract-based deductive verification: inductive data-structure invariant over the real edit operations + exhaustive finite data obligations",
+        design="5/C19"),
+    "C20": dict(
+        category="other",
+        text="Bounded stand-in: the real MoleculeStandardizer on enumerated enol / gem-diol / hemiketal families, plain molecules, explicit-H / isotope / atom-map spellings, mixtures and random atom orders: "
+             "parsable result, same composition, no exception or error text, idempotent. Four open known findings are accepted only for their input classes (index-adjacency heuristic, alkoxy oxygen first, explicit hydrogens on the site oxygen, several sites / charged).",
+        note="bounded; RDKit implicit-hydrogen recomputation is outside any contract here", technique="bounded stand-in on the real standardiser with a composition oracle",
+        design="5/C20"),
 }
 
 checks = []
